@@ -1,6 +1,7 @@
 package main
 
 import (
+	"os"
 	"fmt"
 	"go/ast"
 	"go/token"
@@ -194,6 +195,20 @@ func goC02(c *Ctx, r *Repo) {
 		c.Fail("R02.1", "Generate|missing", "internal/template_generator.go", "TemplateGenerator.Generate not found")
 	} else {
 		c.Func(funcKey(ip, gen))
+		// the per-interface work may sit in a private helper of Generate: the function of Generate's family
+		// that calls LookupInterface is the one examined
+		entry := gen
+		for _, g := range familyOf(ip, gen) {
+			ast.Inspect(g.Body, func(n ast.Node) bool {
+				if call, ok := n.(*ast.CallExpr); ok && calleeName(info, call) == "("+modPath+"/template.Registry).LookupInterface" {
+					gen = g
+				}
+				return true
+			})
+		}
+		if gen != entry {
+			c.Func(funcKey(ip, gen))
+		}
 		var ifaceObj types.Object
 		ast.Inspect(gen.Body, func(n ast.Node) bool {
 			as, ok := n.(*ast.AssignStmt)
@@ -241,14 +256,15 @@ func goC02(c *Ctx, r *Repo) {
 		// the loop: for i := 0; i < iface.NumMethods(); i++ { methodData(ctx, iface.Method(i), ..); methods[i] = .. }
 		okLoop := false
 		ast.Inspect(gen.Body, func(n ast.Node) bool {
-			fs, ok := n.(*ast.ForStmt)
+			st, ok := n.(ast.Stmt)
 			if !ok {
 				return true
 			}
-			iv, bound, ok := countingLoop(info, fs)
+			iv, bound, body, ok := indexLoopIn(info, gen, st)
 			if !ok {
 				return true
 			}
+			fs := struct{ Body *ast.BlockStmt }{body}
 			bc, ok := bound.(*ast.CallExpr)
 			if !ok {
 				return true
@@ -275,6 +291,12 @@ func goC02(c *Ctx, r *Repo) {
 											callOK = true
 											if id, ok := x.Lhs[0].(*ast.Ident); ok {
 												resObj = objOf(info, id)
+											}
+											// or stored directly: X[i], err = methodData(..)
+											if ie, ok := x.Lhs[0].(*ast.IndexExpr); ok {
+												if ii, ok := ie.Index.(*ast.Ident); ok && info.Uses[ii] == iv {
+													storeOK = true
+												}
 											}
 										}
 									}
@@ -475,22 +497,37 @@ func checkMethodData(c *Ctx, r *Repo, ip *packages.Package, md *ast.FuncDecl) {
 		}
 		return true
 	})
-	loops := map[string]*ast.ForStmt{}
+	// the counting loops over the two tuples: for j := 0; j < signature.T().Len(); j++, for j := range
+	// signature.T().Len(), or for j := range <the slice made with that length>
+	type tupleLoop struct {
+		Body *ast.BlockStmt
+		iv   types.Object
+		pos  token.Pos
+	}
+	loops := map[string]*tupleLoop{}
 	for _, s := range md.Body.List {
-		fs, ok := s.(*ast.ForStmt)
-		if !ok {
-			continue
-		}
-		_, bound, ok := countingLoop(info, fs)
+		iv, bound, body, ok := indexLoopIn(info, md, s)
 		if !ok {
 			continue
 		}
 		if t := lenOf(bound); t != "" {
 			if loops[t] != nil {
-				c.Fail("R02.2", "methodData|duplicate-loop|"+t, r.Pos(fs.Pos()), "two loops over signature."+t+"()")
+				c.Fail("R02.2", "methodData|duplicate-loop|"+t, r.Pos(s.Pos()), "two loops over signature."+t+"()")
 			}
-			loops[t] = fs
+			loops[t] = &tupleLoop{body, iv, s.Pos()}
 		}
+	}
+	// lenOfAny: signature.T().Len(), or len(S) of the slice S made with that length
+	lenOfAny := func(e ast.Expr) string {
+		if t := lenOf(e); t != "" {
+			return t
+		}
+		if call, ok := ast.Unparen(e).(*ast.CallExpr); ok && calleeName(info, call) == "builtin.len" && len(call.Args) == 1 {
+			if id, ok := ast.Unparen(call.Args[0]).(*ast.Ident); ok {
+				return sliceTuple[info.Uses[id]]
+			}
+		}
+		return ""
 	}
 	for _, t := range []string{"Params", "Results"} {
 		fs := loops[t]
@@ -498,7 +535,7 @@ func checkMethodData(c *Ctx, r *Repo, ip *packages.Package, md *ast.FuncDecl) {
 			c.Fail("R02.2", "methodData|loop|"+t, r.Pos(md.Pos()), "no loop 'for j := 0; j < signature."+t+"().Len(); j++'")
 			continue
 		}
-		iv, _, _ := countingLoop(info, fs)
+		iv := fs.iv
 		okAt, okStore := false, false
 		var variadicExpr ast.Expr
 		ast.Inspect(fs.Body, func(n ast.Node) bool {
@@ -533,6 +570,17 @@ func checkMethodData(c *Ctx, r *Repo, ip *packages.Package, md *ast.FuncDecl) {
 										}
 									}
 								}
+								// the element may be a local filled field by field: p.Variadic = <expr>
+								if id, ok := x.Rhs[0].(*ast.Ident); ok {
+									ast.Inspect(fs.Body, func(m ast.Node) bool {
+										if as2, ok := m.(*ast.AssignStmt); ok && len(as2.Lhs) == 1 && len(as2.Rhs) == 1 {
+											if se, ok := as2.Lhs[0].(*ast.SelectorExpr); ok && se.Sel.Name == "Variadic" && isObj(info, se.X, info.Uses[id]) {
+												variadicExpr = as2.Rhs[0]
+											}
+										}
+										return true
+									})
+								}
 							}
 						}
 					}
@@ -541,9 +589,9 @@ func checkMethodData(c *Ctx, r *Repo, ip *packages.Package, md *ast.FuncDecl) {
 			return true
 		})
 		if okAt && okStore {
-			c.OK("R02.2", "methodData|transfer|"+t, r.Pos(fs.Pos()), fmt.Sprintf("slice[j] <- signature.%s().At(j) for all j < Len()", t))
+			c.OK("R02.2", "methodData|transfer|"+t, r.Pos(fs.pos), fmt.Sprintf("slice[j] <- signature.%s().At(j) for all j < Len()", t))
 		} else {
-			c.Fail("R02.2", "methodData|transfer|"+t, r.Pos(fs.Pos()), fmt.Sprintf("the %s loop does not copy signature.%s().At(j) into element j of the slice sized by signature.%s().Len() (At ok=%v, store ok=%v)", t, t, t, okAt, okStore))
+			c.Fail("R02.2", "methodData|transfer|"+t, r.Pos(fs.pos), fmt.Sprintf("the %s loop does not copy signature.%s().At(j) into element j of the slice sized by signature.%s().Len() (At ok=%v, store ok=%v)", t, t, t, okAt, okStore))
 		}
 		// Variadic flag
 		switch t {
@@ -576,7 +624,7 @@ func checkMethodData(c *Ctx, r *Repo, ip *packages.Package, md *ast.FuncDecl) {
 						return false
 					}
 					sub, ok := ast.Unparen(r2).(*ast.BinaryExpr)
-					if !ok || sub.Op != token.SUB || lenOf(sub.X) != "Params" {
+					if !ok || sub.Op != token.SUB || lenOfAny(sub.X) != "Params" {
 						return false
 					}
 					lit, ok := sub.Y.(*ast.BasicLit)
@@ -585,17 +633,17 @@ func checkMethodData(c *Ctx, r *Repo, ip *packages.Package, md *ast.FuncDecl) {
 				good = isVar(be.X) && isLast(be.Y) || isVar(be.Y) && isLast(be.X)
 			}
 			if good {
-				c.OK("R02.2", "methodData|variadic-flag", r.Pos(fs.Pos()), "Variadic: signature.Variadic() && j == Params().Len()-1")
+				c.OK("R02.2", "methodData|variadic-flag", r.Pos(fs.pos), "Variadic: signature.Variadic() && j == Params().Len()-1")
 			} else {
-				c.Fail("R02.2", "methodData|variadic-flag", r.Pos(fs.Pos()), "the Variadic flag of a parameter is not 'signature.Variadic() && j == signature.Params().Len()-1' (found "+exprOrNone(variadicExpr)+")")
+				c.Fail("R02.2", "methodData|variadic-flag", r.Pos(fs.pos), "the Variadic flag of a parameter is not 'signature.Variadic() && j == signature.Params().Len()-1' (found "+exprOrNone(variadicExpr)+")")
 			}
 		case "Results":
 			if variadicExpr == nil {
-				c.OK("R02.2", "methodData|result-variadic", r.Pos(fs.Pos()), "results are never variadic (zero value)")
+				c.OK("R02.2", "methodData|result-variadic", r.Pos(fs.pos), "results are never variadic (zero value)")
 			} else if id, ok := ast.Unparen(variadicExpr).(*ast.Ident); ok && id.Name == "false" {
-				c.OK("R02.2", "methodData|result-variadic", r.Pos(fs.Pos()), "results are never variadic")
+				c.OK("R02.2", "methodData|result-variadic", r.Pos(fs.pos), "results are never variadic")
 			} else {
-				c.Fail("R02.2", "methodData|result-variadic", r.Pos(fs.Pos()), "a result's Variadic flag is "+exprOrNone(variadicExpr)+", want false")
+				c.Fail("R02.2", "methodData|result-variadic", r.Pos(fs.pos), "a result's Variadic flag is "+exprOrNone(variadicExpr)+", want false")
 			}
 		}
 	}
@@ -683,10 +731,15 @@ func goR024(c *Ctx, r *Repo, ip *packages.Package, rule string) {
 		return n > 0
 	}
 	blocks := returnsNilFor("*ast.BlockStmt")
+	// function bodies are also out of reach when the walk only ever starts at type declarations
+	// (for _, decl := range file.Decls { if g, ok := decl.(*ast.GenDecl); ok && g.Tok == token.TYPE { ast.Walk(v, g) } })
+	typeDeclRoots := walksTypeDeclsOnly(ip)
 	for _, t := range []string{"*ast.FuncDecl", "*ast.FuncLit"} {
 		gt := strings.Replace(t, "*ast.", "*go/ast.", 1)
 		if blocks || returnsNilFor(t) {
 			c.OK(rule, "Visit|skip|"+gt, r.Pos(visit.Pos()), "Visit returns nil for "+gt)
+		} else if typeDeclRoots {
+			c.OK(rule, "Visit|skip|"+gt, r.Pos(visit.Pos()), "the walk starts at type declarations only, below which no "+gt+" occurs")
 		} else {
 			c.Fail(rule, "Visit|descends|"+gt, r.Pos(visit.Pos()), "NodeVisitor.Visit descends into "+gt+" bodies: a function-local type named like a package-level interface is collected and that interface is mocked twice")
 		}
@@ -718,7 +771,10 @@ func goR024(c *Ctx, r *Repo, ip *packages.Package, rule string) {
 			case "go/ast.Walk":
 				if len(call.Args) == 2 && call.Pos() > files.Body.Pos() && call.End() < files.Body.End() {
 					v, f := fc.E(call.Args[0]), fc.E(call.Args[1])
-					okWalk = strings.HasPrefix(v, "internal.NewNodeVisitor(") && strings.HasSuffix(f, ".Syntax[rangekey("+fc.E(files.X)+")]")
+					fileTree := ".Syntax[rangekey(" + fc.E(files.X) + ")]"
+					okWalk = strings.HasPrefix(v, "internal.NewNodeVisitor(") && (strings.HasSuffix(f, fileTree) ||
+						// or each declaration of that file's tree in turn
+						strings.Contains(f, fileTree+".Decls)") && strings.HasPrefix(f, "rangeval("))
 				}
 			}
 			return true
@@ -726,6 +782,66 @@ func goR024(c *Ctx, r *Repo, ip *packages.Package, rule string) {
 		okVisitor = okVisitor && nNew == 1
 	}
 	c.Check(okVisitor && okWalk, rule, "ParsePackages|visitor-per-file", r.Pos(pp.Pos()), "a fresh visitor walks each file's own syntax tree", "the visitor that collects candidate declarations is not created per file (inside the loop over the package's files) and walked over that file's syntax tree: names found in one file are reported again for the following files, so an interface is mocked more than once")
+}
+
+// walksTypeDeclsOnly: every ast.Walk call of the package is reached only where its root was established to be
+// a *ast.GenDecl whose Tok is token.TYPE (no function declaration or literal occurs below such a node).
+func walksTypeDeclsOnly(ip *packages.Package) bool {
+	info := ip.TypesInfo
+	n, all := 0, true
+	for _, fd := range pkgFuncDecls(ip) {
+		for _, rg := range regionsOf(fd) {
+			has := false
+			for _, st := range rg.list {
+				ast.Inspect(st, func(x ast.Node) bool {
+					switch y := x.(type) {
+					case *ast.FuncLit, *ast.ForStmt, *ast.RangeStmt:
+						return false
+					case *ast.CallExpr:
+						if calleeName(info, y) == "go/ast.Walk" {
+							has = true
+						}
+					}
+					return true
+				})
+			}
+			if !has {
+				continue
+			}
+			d := newDT(info)
+			d.paths = nil
+			d.stmts(seedEnv(d, fd), rg.list, func(p *dtPath) { d.finish(p, "end") })
+			for _, p := range d.paths {
+				for _, call := range p.CallsTo("go/ast.Walk") {
+					n++
+					if os.Getenv("MVCHECK_DBGW") != "" {
+						fmt.Println("WALK", p.String(), call.Args)
+					}
+					if len(call.Args) != 2 {
+						all = false
+						continue
+					}
+					root := call.Args[1]
+					isGen, isType := false, false
+					for _, a := range p.Atoms {
+						if a.Step > call.Step || !a.Val {
+							continue
+						}
+						if strings.HasSuffix(a.Expr, ".(*ast.GenDecl)#ok") && strings.HasPrefix(root, strings.TrimSuffix(a.Expr, "#ok")) {
+							isGen = true
+						}
+						if a.Expr == root+".Tok == go/token.TYPE" {
+							isType = true
+						}
+					}
+					if !isGen || !isType {
+						all = false
+					}
+				}
+			}
+		}
+	}
+	return n > 0 && all
 }
 
 // checkLookupNilGuard: every `x := scope.Lookup(..)` in fd is followed by a nil
